@@ -32,7 +32,8 @@ func init() {
 			srcs = append(srcs, srcTrees(2, 1, accs, o)...)
 			dsts := dstTrees(1, true, false, true)
 			if tier == "thorough" {
-				srcs = append(srcs, thin(srcTrees(3, 2, accs, o), 400)...)
+				srcs = append(srcs, srcTrees(3, 2, accs, o)...)
+				srcs = append(srcs, thin(srcTrees(4, 3, accs, o), 200)...)
 				dsts = dstTrees(2, true, true, true)
 			} else {
 				srcs = thin(srcs, 40)
@@ -54,7 +55,7 @@ func init() {
 		},
 		Bounds: map[string]map[string]interface{}{
 			"quick":    {"statements": 1, "source_leaves": "<=3", "source_depth": "<=2", "destination_clauses": "<=2 (1 cap + remaining), kept anywhere, 2-3 way allotments", "amounts": "unbounded integers"},
-			"thorough": {"statements": 1, "source_leaves": "<=3 (400 sampled 3-leaf trees)", "source_depth": "<=2", "destination_clauses": "<=3, nested depth 2", "amounts": "unbounded integers"},
+			"thorough": {"statements": 1, "source_leaves": "<=3 (all 3-leaf trees) + 200 sampled 4-leaf trees", "source_depth": "<=3", "destination_clauses": "<=3, nested depth 2", "amounts": "unbounded integers"},
 		},
 		Assumptions: apiAssumptions, Stubs: apiStubs,
 		Outside: []string{"scripts outside the template family (more leaves, deeper nesting, more than 3 accounts / 1 asset per statement)", "literal (non-variable) amounts: the parser's NumberLiteral is a machine int and is covered in C14"},
@@ -83,7 +84,8 @@ func init() {
 				"{ max %C from @a max %C from @a @a }", "{ 1/2 from { @a @b } 1/2 from @a }"}
 			if tier == "thorough" {
 				srcs = append(srcs, two...)
-				srcs = append(srcs, thin(srcTrees(3, 2, accs, o), 250)...)
+				srcs = append(srcs, srcTrees(3, 2, accs, o)...)
+				srcs = append(srcs, thin(srcTrees(4, 3, accs, o), 400)...)
 				srcs = append(srcs, three...)
 			} else {
 				srcs = append(srcs, thin(two, 24)...)
@@ -127,7 +129,7 @@ func init() {
 		},
 		Bounds: stdBounds(
 			map[string]interface{}{"statements": "1..2", "source_leaves": "<=3", "depth": "<=2", "destinations": "single account (also an account that is a source)", "numbers": "unbounded integers"},
-			map[string]interface{}{"statements": "1..3", "source_leaves": "<=3 (250 sampled 3-leaf trees)", "depth": "<=2", "numbers": "unbounded integers"}),
+			map[string]interface{}{"statements": "1..3", "source_leaves": "<=3 (all 729 3-leaf trees over 2 accounts) + 400 sampled 4-leaf trees", "depth": "<=3", "numbers": "unbounded integers"}),
 		Assumptions: apiAssumptions, Stubs: apiStubs, Outside: apiOutside,
 	})
 
@@ -190,7 +192,9 @@ func init() {
 				"{ max %C from @a max %C from @a @b }", "max %C from { 1/2 from @a 1/2 from @b }", "max %C from @a allowing unbounded overdraft", "max %C from max %C from @a")
 			if tier == "thorough" {
 				srcs = append(srcs, srcTrees(2, 1, accs, o)...)
+				srcs = append(srcs, srcTrees(3, 2, accs, o)...)
 				srcs = append(srcs, thin(srcTrees(3, 2, []string{"a", "b", "c"}, o), 400)...)
+				srcs = append(srcs, thin(srcTrees(4, 3, accs, o), 300)...)
 				srcs = dedupe(srcs)
 			}
 			for _, s := range srcs {
@@ -205,7 +209,7 @@ func init() {
 		},
 		Bounds: stdBounds(
 			map[string]interface{}{"statements": 1, "source_leaves": "<=3", "depth": "<=2", "modes": "fixed amount and send-all", "destination": "single account", "numbers": "unbounded integers"},
-			map[string]interface{}{"statements": 1, "source_leaves": "<=3 over 3 accounts (400 sampled)", "depth": "<=2", "modes": "fixed amount and send-all", "numbers": "unbounded integers"}),
+			map[string]interface{}{"statements": 1, "source_leaves": "<=3 (all over 2 accounts, 400 sampled over 3) + 300 sampled 4-leaf trees", "depth": "<=3", "modes": "fixed amount and send-all", "numbers": "unbounded integers"}),
 		Assumptions: apiAssumptions, Stubs: apiStubs, Outside: apiOutside,
 	})
 
